@@ -132,7 +132,9 @@ def maskRows (m : List Bool) : List Nat :=
 def Index.rows (n : Nat) : Index → Res (List Nat × Bool)
   | .int i => do let k ← normIdx n i; pure ([k], true)
   | .slice a b c => do let r ← sliceRows n a b c; pure (r, false)
-  | .mask m => if m.length != n then .error .indexErr else pure (maskRows m, false)
+  | .mask m =>
+    -- numpy accepts an empty boolean index on an axis of any length (it selects nothing)
+    if m.length != n && m.length != 0 then .error .indexErr else pure (maskRows m, false)
   | .fancy is => do let r ← is.mapM (normIdx n); pure (r, false)
 
 /-- does numpy return a view (basic indexing) or a copy (advanced indexing)? -/
